@@ -32,7 +32,7 @@ import (
 // scenarios
 
 type Step struct {
-	Op   string `json:"op"`             // merge: send close take drain | repl: send close take drain | smerge: item end err cnext close
+	Op   string `json:"op"`             // merge: send close take drain | repl: send close take drain | smerge: item end err cnext close crel
 	I    int    `json:"i,omitempty"`    // input / destination
 	V    int    `json:"v,omitempty"`    // value; negative = nil interface value
 	E    int    `json:"e,omitempty"`    // injected error id
@@ -44,7 +44,19 @@ type Scn struct {
 	N     int      `json:"n"`               // inputs (merge, smerge) / destinations (repl)
 	Buf   int      `json:"buf,omitempty"`   // merge/repl: capacity of the input channels; 0 = unbuffered, fed by a goroutine
 	Kinds []string `json:"kinds,omitempty"` // smerge: per input "g" (gated, honours ctx) or "i:<cmds>" (never blocks, ignores ctx)
-	Steps []Step   `json:"steps"`
+	// smerge: inputs whose Close takes time: the call does not return before the script releases it
+	// (step `crel i`; a release that comes first makes the Close instantaneous)
+	Slow  []int  `json:"slow_close,omitempty"`
+	Steps []Step `json:"steps"`
+}
+
+func (s Scn) slow(i int) bool {
+	for _, j := range s.Slow {
+		if i == j {
+			return true
+		}
+	}
+	return false
 }
 
 func (s Scn) key() string {
@@ -597,10 +609,13 @@ type gated struct {
 	kill      chan struct{}
 	inNext    int
 	nexts     int
-	closes    int
-	returned  []int // items returned by Next
-	ended     bool  // Next returned End
-	erred     int   // injected error returned by Next (0 = none)
+	closes    int           // Close calls begun
+	closed    int           // Close calls that have returned
+	inClose   int           // Close calls in progress
+	closeGate chan struct{} // nil: Close is instantaneous; else Close returns once this is closed
+	returned  []int         // items returned by Next
+	ended     bool          // Next returned End
+	erred     int           // injected error returned by Next (0 = none)
 	nextAfter bool
 	overlap   bool // Next/Close or Next/Next running concurrently
 	onErr     func(id int)
@@ -611,7 +626,7 @@ func (g *gated) Next(ctx context.Context) (interface{}, error) {
 	if g.closes > 0 {
 		g.nextAfter = true
 	}
-	if g.inNext > 0 {
+	if g.inNext > 0 || g.inClose > 0 {
 		g.overlap = true
 	}
 	g.inNext++
@@ -664,6 +679,19 @@ func (g *gated) Close() {
 		g.overlap = true
 	}
 	g.closes++
+	g.inClose++
+	g.mu.Unlock()
+	if g.closeGate != nil {
+		// a Close that takes time (flushes, releases a connection): everything the owner does in the
+		// meantime is observable at the quiescent points in between
+		select {
+		case <-g.closeGate:
+		case <-g.kill:
+		}
+	}
+	g.mu.Lock()
+	g.inClose--
+	g.closed++
 	g.mu.Unlock()
 }
 
@@ -722,6 +750,8 @@ func execSmerge(t *testing.T, sc Scn) *runOut {
 		arg := make([]stream.Stream[interface{}], k)
 		kill := make(chan struct{})
 		specs := make([]string, k)
+		closeReleased := make([]bool, k)
+		anySlow := false
 		for i := range ins {
 			spec := "g"
 			if i < len(sc.Kinds) && strings.HasPrefix(sc.Kinds[i], "i:") {
@@ -729,6 +759,10 @@ func execSmerge(t *testing.T, sc Scn) *runOut {
 			}
 			specs[i] = spec
 			g := &gated{mu: &mu, honours: spec == "g", cmds: make(chan gcmd, 256), kill: kill}
+			if sc.slow(i) {
+				g.closeGate = make(chan struct{})
+				anySlow = true
+			}
 			if !g.honours {
 				g.pre = parsePre(spec)
 				// an immediate input always ends explicitly
@@ -749,12 +783,21 @@ func execSmerge(t *testing.T, sc Scn) *runOut {
 			ins[i] = g
 			arg[i] = g
 		}
+		for i := range specs {
+			if sc.slow(i) {
+				specs[i] = "s" + specs[i]
+			}
+		}
+		if anySlow {
+			o.notes["slow-close"]++
+		}
 		merged := stream.Merge[interface{}](arg...)
 		var results []cres
 		reported := 0
 		pending, pendingLive := false, false
 		closeStarted, closeReturned, closed := false, false, false
-		closeSnapshot := -1 // close count of an input that was not closed exactly once at the moment Close returned
+		closeSnapshot := "" // an input that was not closed exactly once at the moment Close returned
+		closeSnapshotN := 0
 		terminated := make([]bool, k) // harness has released end/err for this gated input
 		delivered := make([]int, k)
 		params := func() map[string]interface{} { return map[string]interface{}{"inputs": k} }
@@ -807,6 +850,16 @@ func execSmerge(t *testing.T, sc Scn) *runOut {
 					o.fail("c08-merge-spurious-error", params(), "merged stream reported an error no input produced: %s", r.s)
 				}
 			}
+			// an input's Close that is still running (it takes time and the script has not released it
+			// yet) is the environment's turn: a report the owner makes only after it is not overdue, and
+			// Close of the merged stream has to wait for it
+			closing := 0
+			for _, g := range ins {
+				closing += g.inClose
+			}
+			if closing > 0 {
+				o.notes["quiescent-with-input-close-in-progress"]++
+			}
 			if pending {
 				allEnded, allDelivered, anyErr := true, true, false
 				for i, g := range ins {
@@ -821,14 +874,18 @@ func execSmerge(t *testing.T, sc Scn) *runOut {
 					}
 				}
 				if anyErr {
-					o.fail("c08-merge-error-not-surfaced", params(), "input error E%d occurred, a Next call of the merged stream is still blocked at quiescence", firstErr)
+					if closing == 0 {
+						o.fail("c08-merge-error-not-surfaced", params(), "input error E%d occurred, a Next call of the merged stream is still blocked at quiescence", firstErr)
+					}
 				} else if allEnded && allDelivered {
-					o.fail("smerge-no-end", params(), "all %d inputs have ended and everything was delivered, but Next of the merged stream does not return", k)
+					if closing == 0 {
+						o.fail("smerge-no-end", params(), "all %d inputs have ended and everything was delivered, but Next of the merged stream does not return", k)
+					}
 				} else if !allDelivered {
 					o.fail("smerge-item-not-offered", params(), "an input yielded an item that is not delivered although a Next call is waiting")
 				}
 			}
-			gauge, nexts, closes := "", []string{}, []string{}
+			gauge, incl, nexts, closes := "", "", []string{}, []string{}
 			blocked := 0
 			for _, g := range ins {
 				if g.inNext > 0 {
@@ -837,8 +894,14 @@ func execSmerge(t *testing.T, sc Scn) *runOut {
 				} else {
 					gauge += "0"
 				}
+				if g.inClose > 0 {
+					incl += "1"
+				} else {
+					incl += "0"
+				}
 				nexts = append(nexts, fmt.Sprint(g.nexts))
-				closes = append(closes, fmt.Sprint(g.closes))
+				// the LTS's closeInput step is the return of in[i].Close()
+				closes = append(closes, fmt.Sprint(g.closed))
 			}
 			cr := "-"
 			if closeStarted {
@@ -847,13 +910,13 @@ func execSmerge(t *testing.T, sc Scn) *runOut {
 					cr = "1"
 				}
 			}
-			if closeStarted && !closeReturned {
+			if closeStarted && !closeReturned && closing == 0 {
 				o.fail("smerge-close-blocked", map[string]interface{}{"inputs": k, "blocked_in_next": blocked},
-					"Close of the merged stream has not returned at quiescence (%d goroutines still inside in[i].Next)", blocked)
+					"Close of the merged stream has not returned at quiescence (%d goroutines still inside in[i].Next, no Close of an input in progress)", blocked)
 			}
-			if closeSnapshot >= 0 {
-				o.fail("c09-merge-input-close-count", map[string]interface{}{"inputs": k, "closes": closeSnapshot},
-					"an input had been closed %d times at the moment Close of the merged stream returned", closeSnapshot)
+			if closeSnapshot != "" {
+				o.fail("c09-merge-input-close-count", map[string]interface{}{"inputs": k, "closes": closeSnapshotN},
+					"at the moment Close of the merged stream returned, %s", closeSnapshot)
 			}
 			if closeReturned {
 				if blocked > 0 {
@@ -861,9 +924,9 @@ func execSmerge(t *testing.T, sc Scn) *runOut {
 						"after Close returned, %d goroutine(s) are still blocked in in[i].Next waiting for further input", blocked)
 				}
 				for i, g := range ins {
-					if g.closes != 1 {
-						o.fail("c09-merge-input-close-count", map[string]interface{}{"inputs": k, "closes": g.closes},
-							"input %d was closed %d times by the time Close of the merged stream returned", i, g.closes)
+					if g.closed != 1 {
+						o.fail("c09-merge-input-close-count", map[string]interface{}{"inputs": k, "closes": g.closed},
+							"Close of the merged stream has returned; input %d: Close begun %d times, returned %d times", i, g.closes, g.closed)
 					}
 				}
 			}
@@ -882,8 +945,8 @@ func execSmerge(t *testing.T, sc Scn) *runOut {
 			if pending {
 				pd = "1"
 			}
-			o.lines = append(o.lines, fmt.Sprintf("%s ; res=%s pend=%s closeret=%s gauge=%s nexts=%s closes=%s",
-				act, strings.Join(news, ","), pd, cr, gauge, strings.Join(nexts, ","), strings.Join(closes, ",")))
+			o.lines = append(o.lines, fmt.Sprintf("%s ; res=%s pend=%s closeret=%s gauge=%s nexts=%s closes=%s inclose=%s",
+				act, strings.Join(news, ","), pd, cr, gauge, strings.Join(nexts, ","), strings.Join(closes, ","), incl))
 		}
 		cancelPending := func() {}
 		callNext := func(live bool) {
@@ -944,11 +1007,21 @@ func execSmerge(t *testing.T, sc Scn) *runOut {
 					defer func() { recover() }()
 					merged.Close()
 				}()
+				// judged here, in the consumer's goroutine, at the very instant Close returns: every input's
+				// Close must have been called once and must have returned
 				mu.Lock()
 				closeReturned = true
-				for _, g := range ins {
-					if g.closes != 1 && closeSnapshot < 0 {
-						closeSnapshot = g.closes
+				for i, g := range ins {
+					if (g.closes != 1 || g.closed != 1) && closeSnapshot == "" {
+						closeSnapshotN = g.closed
+						switch {
+						case g.closes == 0:
+							closeSnapshot = fmt.Sprintf("Close of input %d had not been called", i)
+						case g.inClose > 0:
+							closeSnapshot = fmt.Sprintf("Close of input %d was still in progress (begun %d, returned %d)", i, g.closes, g.closed)
+						default:
+							closeSnapshot = fmt.Sprintf("input %d had been closed %d times", i, g.closes)
+						}
 					}
 				}
 				mu.Unlock()
@@ -1002,6 +1075,14 @@ func execSmerge(t *testing.T, sc Scn) *runOut {
 				callClose()
 				o.effSteps++
 				check("close")
+			case "crel":
+				if st.I < 0 || st.I >= k || ins[st.I].closeGate == nil || closeReleased[st.I] {
+					continue
+				}
+				closeReleased[st.I] = true
+				close(ins[st.I].closeGate)
+				o.effSteps++
+				check(fmt.Sprintf("crel %d", st.I))
 			}
 		}
 		// cleanup (not part of the checked trace): make every goroutine end
@@ -1099,6 +1180,9 @@ func runScn(t *testing.T, ms *models, res *vlib.Result, sc Scn, shrink bool) (mo
 	}
 	if o.leak != "" {
 		res.Count("goroutines-left-in-bubble")
+	}
+	for n, c := range o.notes {
+		res.CountN("smerge."+n, c)
 	}
 	nontrivial := sc.N >= 2 && o.effSteps >= 3
 	res.Case(sc.key(), nontrivial, nil)
@@ -1264,10 +1348,35 @@ func genSmerge(r *vlib.Rand, k int) Scn {
 			sc.Kinds = append(sc.Kinds, "g")
 		}
 	}
+	// inputs whose Close takes time (two scenarios in five): the script decides when it returns
+	if k > 0 && r.Chance(2, 5) {
+		for i := 0; i < k; i++ {
+			if r.Chance(1, 2) {
+				sc.Slow = append(sc.Slow, i)
+			}
+		}
+		if len(sc.Slow) == 0 {
+			sc.Slow = []int{r.Intn(k)}
+		}
+	}
+	released := map[int]bool{}
+	crel := func() {
+		if len(sc.Slow) > 0 {
+			i := sc.Slow[r.Intn(len(sc.Slow))]
+			if !released[i] {
+				released[i] = true
+				sc.Steps = append(sc.Steps, Step{Op: "crel", I: i})
+			}
+		}
+	}
 	steps := r.Range(0, 14)
 	closed := false
 	errs := 0
 	for s := 0; s < steps; s++ {
+		if len(sc.Slow) > 0 && r.Chance(1, 7) {
+			crel()
+			continue
+		}
 		switch r.Pick(6, 2, 1, 7, 1) {
 		case 0, 1, 2:
 			if k == 0 {
@@ -1317,7 +1426,99 @@ func genSmerge(r *vlib.Rand, k int) Scn {
 		}
 		sc.Steps = append(sc.Steps, Step{Op: "close"})
 	}
+	// the slow Closes return one by one (what the consumer sees in between is judged), then the
+	// consumer may look again
+	for _, i := range sc.Slow {
+		if !released[i] && r.Chance(9, 10) {
+			released[i] = true
+			sc.Steps = append(sc.Steps, Step{Op: "crel", I: i})
+			if r.Chance(1, 3) {
+				sc.Steps = append(sc.Steps, Step{Op: "cnext", Live: true})
+			}
+		}
+	}
 	return sc
+}
+
+// directedSlowClose: inputs whose Close takes time, crossed with (a) an error of one input while its
+// siblings are parked in Next honouring the context Merge hands them — the error reported must be
+// that input's, not the cancellation Merge itself caused —, (b) the normal end, (c) Close of the
+// merged stream with inputs parked / ended / failed: every input's Close must have *returned* by
+// the time Close returns. Run in every tier.
+func directedSlowClose() []Scn {
+	var out []Scn
+	next := Step{Op: "cnext", Live: true}
+	for k := 1; k <= 3; k++ {
+		for f := 0; f < k; f++ { // the failing input
+			for _, slow := range [][]int{{f}, allInputs(k)} {
+				for _, e := range []int{1, errBareCanceled, 12} {
+					for variant := 0; variant < 4; variant++ {
+						sc := Scn{Fam: "smerge", N: k, Slow: slow}
+						errStep := Step{Op: "err", I: f, E: e}
+						switch variant {
+						case 0: // a Next is waiting when the input fails
+							sc.Steps = []Step{next, errStep, next}
+						case 1: // the input fails first, the consumer asks afterwards
+							sc.Steps = []Step{errStep, next, next}
+						case 2: // an item of the failing input first
+							sc.Steps = []Step{{Op: "item", I: f, V: f * 1000}, next, next, errStep, next}
+						case 3: // a sibling's item is waiting to be sent when the input fails
+							g := (f + 1) % k
+							sc.Steps = []Step{{Op: "item", I: g, V: g * 1000}, errStep, next, next}
+						}
+						// the Closes return, failing input first or last; the consumer looks again
+						order := append([]int{}, slow...)
+						if variant%2 == 1 {
+							for a, b := 0, len(order)-1; a < b; a, b = a+1, b-1 {
+								order[a], order[b] = order[b], order[a]
+							}
+						}
+						for _, i := range order {
+							sc.Steps = append(sc.Steps, Step{Op: "crel", I: i}, next)
+						}
+						sc.Steps = append(sc.Steps, Step{Op: "close"})
+						out = append(out, sc)
+					}
+				}
+			}
+		}
+		// (b) normal end with slow Closes, (c) Close while Closes of the inputs are outstanding
+		for _, slow := range [][]int{{k - 1}, allInputs(k)} {
+			end := Scn{Fam: "smerge", N: k, Slow: slow}
+			for i := 0; i < k; i++ {
+				end.Steps = append(end.Steps, Step{Op: "item", I: i, V: i * 1000}, next, Step{Op: "end", I: i})
+			}
+			end.Steps = append(end.Steps, next, next)
+			for _, i := range slow {
+				end.Steps = append(end.Steps, Step{Op: "crel", I: i}, next)
+			}
+			end.Steps = append(end.Steps, Step{Op: "close"})
+			out = append(out, end)
+			for variant := 0; variant < 3; variant++ {
+				cl := Scn{Fam: "smerge", N: k, Slow: slow}
+				switch variant {
+				case 1: // abandoned after one item
+					cl.Steps = []Step{{Op: "item", I: 0, V: 0}, next}
+				case 2: // one input already ended (its Close is outstanding), the others parked
+					cl.Steps = []Step{{Op: "end", I: k - 1}}
+				}
+				cl.Steps = append(cl.Steps, Step{Op: "close"})
+				for _, i := range slow {
+					cl.Steps = append(cl.Steps, Step{Op: "crel", I: i})
+				}
+				out = append(out, cl)
+			}
+		}
+	}
+	return out
+}
+
+func allInputs(k int) []int {
+	out := make([]int, k)
+	for i := range out {
+		out[i] = i
+	}
+	return out
 }
 
 func genAny(r *vlib.Rand) Scn {
@@ -1339,10 +1540,13 @@ func enumerate(t *testing.T, ms *models, res *vlib.Result, until time.Time) bool
 	}
 	spaces := []space{{"merge", 0, 2}, {"merge", 1, 6}, {"merge", 2, 5}, {"merge", 3, 4}, {"merge", 4, 3}, {"merge", 5, 2},
 		{"repl", 0, 3}, {"repl", 1, 5}, {"repl", 2, 5}, {"repl", 3, 4},
-		{"smerge", 0, 3}, {"smerge", 1, 5}, {"smerge", 2, 4}, {"smerge", 3, 3}}
+		{"smerge", 0, 3}, {"smerge", 1, 5}, {"smerge", 2, 4}, {"smerge", 3, 3},
+		// inputs whose Close takes time (input 0 / every input), `crel i` in the alphabet
+		{"smerge-slow0", 1, 4}, {"smerge-slow0", 2, 4}, {"smerge-slowall", 2, 3}}
 	for _, sp := range spaces {
 		var alpha []Step
 		var tail []Step
+		var slow []int
 		switch sp.fam {
 		case "merge":
 			for i := 0; i < sp.n; i++ {
@@ -1357,7 +1561,7 @@ func enumerate(t *testing.T, ms *models, res *vlib.Result, until time.Time) bool
 				alpha = append(alpha, Step{Op: "take", I: j})
 			}
 			tail = append(tail, Step{Op: "close"}, Step{Op: "drain"})
-		case "smerge":
+		case "smerge", "smerge-slow0", "smerge-slowall":
 			// input 0 fails with a plain error, input 1 with context.Canceled itself, input 2 with an
 			// error wrapping it; a single input with either of the first two
 			for i := 0; i < sp.n; i++ {
@@ -1367,7 +1571,21 @@ func enumerate(t *testing.T, ms *models, res *vlib.Result, until time.Time) bool
 				alpha = append(alpha, Step{Op: "err", I: 0, E: errBareCanceled})
 			}
 			alpha = append(alpha, Step{Op: "cnext", Live: true}, Step{Op: "cnext", Live: false}, Step{Op: "close"})
+			switch sp.fam {
+			case "smerge-slow0":
+				slow = []int{0}
+			case "smerge-slowall":
+				slow = allInputs(sp.n)
+			}
+			for _, i := range slow {
+				alpha = append(alpha, Step{Op: "crel", I: i})
+				tail = append(tail, Step{Op: "crel", I: i})
+			}
 			tail = append(tail, Step{Op: "cnext", Live: true}, Step{Op: "close"})
+		}
+		fam := sp.fam
+		if strings.HasPrefix(fam, "smerge") {
+			fam = "smerge"
 		}
 		idx := make([]int, sp.depth)
 		for length := 0; length <= sp.depth; length++ {
@@ -1378,12 +1596,12 @@ func enumerate(t *testing.T, ms *models, res *vlib.Result, until time.Time) bool
 				if time.Now().After(until) {
 					return false
 				}
-				sc := Scn{Fam: sp.fam, N: sp.n, Buf: 8}
+				sc := Scn{Fam: fam, N: sp.n, Buf: 8, Slow: slow}
 				seq := make([]int, sp.n+1)
 				for p := 0; p < length; p++ {
 					st := alpha[idx[p]]
 					if st.Op == "send" || st.Op == "item" {
-						if sp.fam == "repl" {
+						if fam == "repl" {
 							st.V = seq[0]
 							seq[0]++
 						} else {
@@ -1479,6 +1697,12 @@ func TestVerif(t *testing.T) {
 		}
 		res.Count("corpus")
 		runScn(t, ms, res, sc, false)
+	}
+
+	// inputs whose Close takes time x {error while siblings are parked, normal end, Close}: every run
+	for _, sc := range directedSlowClose() {
+		res.Count("directed-slow-close")
+		runScn(t, ms, res, sc, true)
 	}
 
 	r := vlib.NewRand(env.Seed)
